@@ -224,10 +224,18 @@ class _Fake:
 
 def _round_ctor(ctx, mod, cls, name, exc_class, extra=()):
     """SemiCylinder/Cylinder/Frustum: |axis · radius_vector| <= TOL, both signs."""
-    p1, p2, rp = ctx.vec("a"), ctx.vec("b"), ctx.vec("r")
+    p1, p2 = ctx.vec("a"), ctx.vec("b")
     axis = p2 - p1
-    diff = np.dot(axis, rp - p1)
     side = ctx.case
+
+    def perpendicular(rng):  # bounded tier: a radius point with |axis . (r - a)| <= TOL (uniform draws never are)
+        ax = np.asarray(axis, dtype=float)
+        w = np.cross(ax, [rng.gauss(0, 1) for _ in range(3)])
+        along = rng.choice([0.0, 0.0, rng.uniform(-0.95, 0.95), 0.95, -0.95]) * TOL / max(np.dot(ax, ax), 1e-12)
+        return np.asarray(p1, dtype=float) + w / max(np.linalg.norm(w), 1e-12) * rng.uniform(0.3, 3) + along * ax
+
+    rp = ctx.vec_from("r", perpendicular) if side == "perpendicular" else ctx.vec("r")
+    diff = np.dot(axis, rp - p1)
     if side == "lean-forward":
         ctx.assume(diff > TOL)
     elif side == "lean-backward":
